@@ -391,12 +391,12 @@ func cmdCheck(args []string) int {
 	// discharged (a bounded exploration, labelled as such in the evidence, never counted as proved). It is the net under
 	// gaps in the contracts themselves - a clause of the property that no postcondition states, an assumption that a
 	// change makes false - which no obligation can reveal. Families that only compute (policy, listing, text, table,
-	// configuration) run in both tiers; those that start processes and talk to the kernel only in the thorough tier.
+	// configuration) and the scripted, timing-free parts of the profiler family run in both tiers; what talks to the kernel
+	// (loader) or depends on when a process is killed (profiler crash points) only in the thorough tier.
 	familyRan, familyNote := false, ""
 	if len(oc.violations) == 0 {
 		hn := propHarness[prop]
-		det := map[string]bool{"policy": true, "disasm": true, "text": true, "arch": true, "sandbox": true}
-		if hn != "" && (det[hn] || *tier == "thorough") {
+		if hn != "" && (detHarness[hn] || detHarness[propHarness2[prop]] || *tier == "thorough") {
 			familyRan = true
 			if *tier == "quick" && len(oc.undecided) == 0 {
 				familyMode = "beside"
@@ -448,7 +448,7 @@ func cmdCheck(args []string) int {
 			"solver_timeout_s":         timeout,
 			"proof_hints":              map[string]int{"tried": hintsTried, "not_proved_hence_not_assumed": hintsFailed},
 			"notes":                    append(e.Notes, gnotes...),
-			"witness_family":           map[string]interface{}{"harness": propHarness[prop], "second_harness": propHarness2[prop], "ran_beside_the_proof": familyRan, "outcome": familyNote, "what": "bounded exploration of the real code (in-package test injected by a build overlay: enumerated and seeded random inputs, histories, scenarios; see /verif/replay); not part of the proof and not counted in obligations/discharged"},
+			"witness_family":           map[string]interface{}{"harness": propHarness[prop], "second_harness": propHarness2[prop], "ran_beside_the_proof": familyRan, "outcome": familyNote, "families_without_result": familyErrors, "what": "bounded exploration of the real code (in-package test injected by a build overlay: enumerated and seeded random inputs, histories, scenarios; see /verif/replay); not part of the proof and not counted in obligations/discharged"},
 			"explanation":              "obligations generated by govc from the typed AST of /repo on this run (contracts: //@ files under build tag verif), discharged by the SMT portfolio; 'discharged' counts obligations proved unsat-of-negation; obligations that fail only at a recorded known finding are counted under known_finding_obligations",
 		},
 		"assumptions":    assumptions,
